@@ -148,6 +148,7 @@ var c17Configs = []c17Config{
 	{"ECMAScript", int(regexp2.ECMAScript), 0, true, true},
 	{"RE2", int(regexp2.RE2), 0, false, false},
 	{"ExplicitCapture", int(regexp2.ExplicitCapture), 0, false, false},
+	{"RE2+MaintainCaptureOrder", int(regexp2.RE2), mon.COMaintainOrder, true, false},
 }
 
 // expected group texts: number -> text of the LAST group (textual order) carrying that number
@@ -225,14 +226,45 @@ func numberingLaws(root *gen.Node, cfg c17Config, st func(string)) (detail strin
 	if got := re.GroupNameFromNumber(gi.Max + 1); got != "" {
 		return fmt.Sprintf("GroupNameFromNumber(%d) = %q for a number that is not a group", gi.Max+1, got), src
 	}
-	if got := re.GroupNumberFromName("nosuchgroup"); got != -1 {
-		return fmt.Sprintf("GroupNumberFromName(\"nosuchgroup\") = %d", got), src
+	// numbers and names that designate no group
+	isNum := map[int]bool{}
+	for _, n := range nums {
+		isNum[n] = true
+	}
+	var absentNums []int
+	for n := -2; n <= gi.Max+3; n++ {
+		if !isNum[n] {
+			absentNums = append(absentNums, n)
+		}
+	}
+	absentNums = append(absentNums, 1<<31-1, -1<<31)
+	st("absent-lookups")
+	for _, n := range absentNums {
+		if got := re.GroupNameFromNumber(n); got != "" {
+			return fmt.Sprintf("GroupNameFromNumber(%d) = %q for a number that is not a group", n, got), src
+		}
+	}
+	absentNames := []string{"nosuchgroup", "", "99999999999999999999999", "18446744073709551617", strconv.Itoa(gi.Max + 1), "-1", " 1"}
+	for _, nm := range absentNames {
+		if got := re.GroupNumberFromName(nm); got != -1 {
+			return fmt.Sprintf("GroupNumberFromName(%q) = %d for a name that is not a group", nm, got), src
+		}
 	}
 	// a match: every group captures a text unique to it
 	input := inputOf(root)
 	m, err := re.FindStringMatch(input)
 	if err != nil || m == nil {
 		return fmt.Sprintf("the pattern should match its own literal text %q: match=%v err=%v", input, m != nil, err), src
+	}
+	for _, n := range absentNums {
+		if g := m.GroupByNumber(n); g != nil {
+			return fmt.Sprintf("Match.GroupByNumber(%d) returns group %q although %d is not a group number", n, g.Name, n), src
+		}
+	}
+	for _, nm := range absentNames {
+		if g := m.GroupByName(nm); g != nil {
+			return fmt.Sprintf("Match.GroupByName(%q) returns group %q although no group has that name", nm, g.Name), src
+		}
 	}
 	texts := expectedTexts(root)
 	groups := m.Groups()
@@ -289,10 +321,77 @@ func numberingLaws(root *gen.Node, cfg c17Config, st func(string)) (detail strin
 			}
 		}
 	}
+	// a balancing group appended to the pattern pops the group it designates (by number and by
+	// name) and no other: capture counts before and after
+	if !cfg.ecma {
+		base := map[int]int{}
+		for i, n := range nums {
+			base[n] = len(groups[i].Captures)
+		}
+		for i, n := range nums {
+			if n == 0 || base[n] == 0 {
+				continue
+			}
+			for _, ref := range []string{strconv.Itoa(n), names[i]} {
+				if ref == "" {
+					continue
+				}
+				probe := "(?<-" + ref + ">)"
+				re3, err := mon.Compile(src+probe, cfg.opts, cfg.copts)
+				if err != nil {
+					if cfg.opts == 0 && cfg.copts == 0 {
+						return fmt.Sprintf("appending the balancing group %s is rejected: %v", probe, err), src
+					}
+					continue
+				}
+				st("balancing-refs")
+				m3, err := re3.FindStringMatch(input)
+				if err != nil || m3 == nil {
+					return fmt.Sprintf("pattern+%s no longer matches %q (err %v): the group it pops has a capture", probe, input, err), src
+				}
+				for j, n2 := range re3.GetGroupNumbers() {
+					want := base[n2]
+					if n2 == n {
+						want--
+					}
+					if got := len(m3.Groups()[j].Captures); got != want {
+						return fmt.Sprintf("pattern+%s: group number %d has %d captures, expected %d (the balancing group pops group %d only)", probe, n2, got, want, n), src
+					}
+				}
+			}
+		}
+	}
 	return "", src
 }
 
 func replayC17(w core.Witness) string {
+	switch reg, _ := w.Args["regression"].(string); reg {
+	case "absent-lookups":
+		re := regexp2.MustCompile(`(?<5>a)(?<10>b)`, regexp2.None)
+		m, _ := re.FindStringMatch("ab")
+		if m == nil {
+			return "no match"
+		}
+		if g := m.GroupByNumber(1); g != nil {
+			return fmt.Sprintf("(?<5>a)(?<10>b): GroupByNumber(1) returns group %q", g.Name)
+		}
+		re = regexp2.MustCompile(`(a)(b)`, regexp2.None)
+		for _, nm := range []string{"", "18446744073709551617"} {
+			if n := re.GroupNumberFromName(nm); n != -1 {
+				return fmt.Sprintf("(a)(b): GroupNumberFromName(%q) = %d", nm, n)
+			}
+		}
+		return ""
+	case "python-numeric-name":
+		re, err := regexp2.Compile(`(a)(?P<1>b)`, regexp2.RE2)
+		if err != nil {
+			return err.Error()
+		}
+		if got := fmt.Sprint(re.GetGroupNames(), re.GetGroupNumbers()); got != "[0 1] [0 1]" {
+			return "(a)(?P<1>b) under RE2: names and numbers " + got + ", expected [0 1] [0 1] as for (a)(?<1>b)"
+		}
+		return ""
+	}
 	var ast gen.Node
 	if err := json.Unmarshal(w.AST, &ast); err != nil {
 		return "witness has no AST"
@@ -330,6 +429,14 @@ func runC17(r *core.Run) int {
 				}
 			})
 		}
+		if cfg.opts&int(regexp2.RE2) != 0 {
+			// the Python spelling (?P<name>...), also for explicit numbers
+			root.Walk(func(n *gen.Node) {
+				if n.K == gen.KGroup && n.Capture && (n.Name != "" || n.Num > 0) && rng.Intn(2) == 0 {
+					n.PName, n.Quote = true, false
+				}
+			})
+		}
 		detail, src := numberingLaws(root, cfg, func(k string) { l.Count("law_"+k, 1) })
 		if src == "" {
 			return
@@ -354,9 +461,9 @@ func runC17(r *core.Run) int {
 			l.Violate(core.Violation{Kind: "group-map-inconsistent", Detail: detail, Witness: core.Witness{Pattern: src, AST: ast, Options: cfg.opts, COpts: cfg.copts, Args: map[string]any{"config": cfg.name}}})
 		}
 	})
-	r.Extras["bounds"] = map[string]any{"patterns": nPat, "configs": []string{"default", "MaintainCaptureOrder", "ECMAScript", "RE2", "ExplicitCapture"}, "nesting": "2-3", "groups_per_pattern": "up to ~12"}
+	r.Extras["bounds"] = map[string]any{"patterns": nPat, "configs": []string{"default", "MaintainCaptureOrder", "ECMAScript", "RE2", "ExplicitCapture", "RE2+MaintainCaptureOrder"}, "nesting": "2-3", "groups_per_pattern": "up to ~12"}
 	return r.Finish(
-		"patterns built from random nestings of unnamed, named (incl. duplicate names and (?'n') spelling), explicitly numbered (sparse: 1,2,3,5,7,12,30), non-capturing, atomic, look-ahead and (?n)/(?-n) scoped groups over pairwise distinct literals, so that every group captures a text unique to it; under default / MaintainCaptureOrder / ECMAScript / RE2 / ExplicitCapture; evaluation = one (pattern,configuration) for which the name and number lists, the four lookups, Match.Groups order, GroupByName/GroupByNumber, $n / ${name} in Replace and appended \\k<n> / \\k<name> back-references are all compared with the documented numbering rule computed on the AST; non-trivial = distinct (pattern,configuration) with at least two groups",
+		"patterns built from random nestings of unnamed, named (incl. duplicate names and (?'n') spelling), explicitly numbered (sparse: 1,2,3,5,7,12,30), non-capturing, atomic, look-ahead and (?n)/(?-n) scoped groups over pairwise distinct literals, so that every group captures a text unique to it; under default / MaintainCaptureOrder / ECMAScript / RE2 (with the (?P<name>) / (?P<5>) spellings) / ExplicitCapture / RE2+MaintainCaptureOrder; lookups of numbers and names that designate no group must fail; an appended balancing group (?<-n>) / (?<-name>) must pop exactly the designated group; evaluation = one (pattern,configuration) for which the name and number lists, the four lookups, Match.Groups order, GroupByName/GroupByNumber, $n / ${name} in Replace and appended \\k<n> / \\k<name> back-references are all compared with the documented numbering rule computed on the AST; non-trivial = distinct (pattern,configuration) with at least two groups",
 		[]string{"the numbering rule (gen.Number) is harness code written from the documentation", "ECMAScript: unnamed groups have no name (documented)"},
 		map[string]int64{"evaluations": 10000, "distinct_nontrivial": 5000, "law_backrefs": 10000, "law_replacement-refs": 10000})
 }
